@@ -1030,6 +1030,6 @@ def run(ctx):
     ctx.shard(jobs, timeout=ctx.pick(120, 500))
     ctx.floor("exhaustive_sequences", ctx.pick(6000, 120000))
     ctx.floor("random_sequences", ctx.pick(3600, 40000))
-    ctx.floor("steps_rejected", ctx.pick(3000, 60000))
-    ctx.floor("steps_state_changed", ctx.pick(10000, 200000))
-    ctx.floor("distinct_nontrivial", ctx.pick(5000, 100000))
+    ctx.floor("steps_rejected", ctx.pick(8000, 80000))
+    ctx.floor("steps_state_changed", ctx.pick(25000, 300000))
+    ctx.floor("distinct_nontrivial", ctx.pick(10000, 120000))
